@@ -17,6 +17,11 @@
 (*   "CheckThenMkdir" the directory is created by exists() followed by a   *)
 (*                   strict mkdir (two steps) instead of one mkdir that    *)
 (*                   tolerates an existing directory                       *)
+(*   "ProcessMemo"   a process remembers, per key-file name, the unfolding  *)
+(*                   it last served from disk and returns it for the next  *)
+(*                   call with that file name without looking at the       *)
+(*                   directory (variable memo: what survives in the        *)
+(*                   interpreter of process p from one call to the next)   *)
 (* The cache directory itself may not exist yet (`dir`): every call first  *)
 (* makes sure it does, and several first callers may do so at once.        *)
 (* With Dev = {} the algorithm is: mkdir (tolerant); stat; on hit open+load and *verify* the *)
@@ -48,8 +53,9 @@ VARIABLES link,    \* Names -> 0..MaxInodes          (0 = absent)
           woff,    \* chunks written through wfd
           calls, crashes,
           dir,     \* the cache directory exists
-          dseen    \* p -> what p's exists() saw (used by deviation "CheckThenMkdir" only)
-vars == <<link, ino, nino, pc, arg, res, rfd, wfd, woff, calls, crashes, dir, dseen>>
+          dseen,   \* p -> what p's exists() saw (used by deviation "CheckThenMkdir" only)
+          memo     \* p -> key -> expression whose unfolding p's interpreter remembers (deviation "ProcessMemo" only)
+vars == <<link, ino, nino, pc, arg, res, rfd, wfd, woff, calls, crashes, dir, dseen, memo>>
 procvars == <<pc, arg, res, rfd, wfd, woff>>
 
 Empty == [src |-> None, len |-> 0]
@@ -66,6 +72,7 @@ Init == /\ link = [n \in Names |-> 0]
         /\ calls = 0 /\ crashes = 0
         /\ dir \in BOOLEAN
         /\ dseen = [p \in Procs |-> FALSE]
+        /\ memo = [p \in Procs |-> [k \in Keys |-> None]]
 
 Key(p) == KeyOf[arg[p]]
 Goto(p, l) == pc' = [pc EXCEPT ![p] = l]
@@ -74,28 +81,29 @@ Call(p, e) ==
   /\ pc[p] = "idle" /\ calls < MaxCalls
   /\ calls' = calls + 1
   /\ arg' = [arg EXCEPT ![p] = e]
-  /\ res' = [res EXCEPT ![p] = None]
-  /\ Goto(p, "mkdir")
-  /\ UNCHANGED <<link, ino, nino, rfd, wfd, woff, crashes, dir, dseen>>
+  /\ IF "ProcessMemo" \in Dev /\ memo[p][KeyOf[e]] # None
+     THEN res' = [res EXCEPT ![p] = memo[p][KeyOf[e]]] /\ Goto(p, "ret")     \* served from the interpreter's memory
+     ELSE res' = [res EXCEPT ![p] = None] /\ Goto(p, "mkdir")
+  /\ UNCHANGED <<link, ino, nino, rfd, wfd, woff, crashes, dir, dseen, memo>>
 
 \* cache_directory.mkdir(exist_ok=True, parents=True): whoever comes first creates it, nobody minds
 EnsureDir(p) ==
   /\ pc[p] = "mkdir" /\ "CheckThenMkdir" \notin Dev
   /\ dir' = TRUE
   /\ Goto(p, "stat")
-  /\ UNCHANGED <<link, ino, nino, arg, res, rfd, wfd, woff, calls, crashes, dseen>>
+  /\ UNCHANGED <<link, ino, nino, arg, res, rfd, wfd, woff, calls, crashes, dseen, memo>>
 \* deviation: if not cache_directory.exists(): cache_directory.mkdir()
 DirStat(p) ==
   /\ pc[p] = "mkdir" /\ "CheckThenMkdir" \in Dev
   /\ dseen' = [dseen EXCEPT ![p] = dir]
   /\ Goto(p, "mkdir2")
-  /\ UNCHANGED <<link, ino, nino, arg, res, rfd, wfd, woff, calls, crashes, dir>>
+  /\ UNCHANGED <<link, ino, nino, arg, res, rfd, wfd, woff, calls, crashes, dir, memo>>
 StrictMkdir(p) ==
   /\ pc[p] = "mkdir2"
   /\ IF dseen[p] THEN Goto(p, "stat") /\ UNCHANGED <<dir, res>>
      ELSE IF dir THEN res' = [res EXCEPT ![p] = RAISED] /\ Goto(p, "ret") /\ UNCHANGED dir   \* FileExistsError
      ELSE dir' = TRUE /\ Goto(p, "stat") /\ UNCHANGED res
-  /\ UNCHANGED <<link, ino, nino, arg, rfd, wfd, woff, calls, crashes, dseen>>
+  /\ UNCHANGED <<link, ino, nino, arg, rfd, wfd, woff, calls, crashes, dseen, memo>>
 
 \* the directory may hold anything before the first call: a key file left by another program,
 \* an older version of the library or a killed writer -- `len` chunks of content that is not a
@@ -106,13 +114,13 @@ Plant(k, n) ==
   /\ link' = [link EXCEPT ![k] = nino + 1]
   /\ ino' = [ino EXCEPT ![nino + 1] = [src |-> "foreign", len |-> n]]
   /\ dir                      \* something can only be in a directory that exists
-  /\ UNCHANGED <<procvars, calls, crashes, dir, dseen>>
+  /\ UNCHANGED <<procvars, calls, crashes, dir, dseen, memo>>
 
 \* filename.exists()
 Stat(p) ==
   /\ pc[p] = "stat"
   /\ Goto(p, IF link[Key(p)] # 0 THEN "openr" ELSE "doit")
-  /\ UNCHANGED <<link, ino, nino, arg, res, rfd, wfd, woff, calls, crashes, dir, dseen>>
+  /\ UNCHANGED <<link, ino, nino, arg, res, rfd, wfd, woff, calls, crashes, dir, dseen, memo>>
 
 \* open(filename, "rb"): the handle pins the inode
 OpenR(p) ==
@@ -120,7 +128,7 @@ OpenR(p) ==
   /\ link[Key(p)] # 0          \* nothing in the model unlinks a key file
   /\ rfd' = [rfd EXCEPT ![p] = link[Key(p)]]
   /\ Goto(p, "load")
-  /\ UNCHANGED <<link, ino, nino, arg, res, wfd, woff, calls, crashes, dir, dseen>>
+  /\ UNCHANGED <<link, ino, nino, arg, res, wfd, woff, calls, crashes, dir, dseen, memo>>
 
 \* pickle.load + (Dev = {}) verification that the entry belongs to this expression
 Load(p) ==
@@ -134,13 +142,15 @@ Load(p) ==
              THEN res' = [res EXCEPT ![p] = arg[p]] /\ Goto(p, "ret")
              ELSE res' = res /\ Goto(p, "doit")   \* unreadable or foreign entry = miss
   /\ rfd' = [rfd EXCEPT ![p] = 0]
+  /\ memo' = IF "ProcessMemo" \in Dev /\ "UncheckedLoad" \notin Dev /\ ino[rfd[p]].src = arg[p] /\ ino[rfd[p]].len = NChunks
+             THEN [memo EXCEPT ![p][Key(p)] = arg[p]] ELSE memo
   /\ UNCHANGED <<link, ino, nino, arg, wfd, woff, calls, crashes, dir, dseen>>
 
 \* unevaluated_expr.doit() -- no file-system effect
 Doit(p) ==
   /\ pc[p] = "doit"
   /\ Goto(p, "openw")
-  /\ UNCHANGED <<link, ino, nino, arg, res, rfd, wfd, woff, calls, crashes, dir, dseen>>
+  /\ UNCHANGED <<link, ino, nino, arg, res, rfd, wfd, woff, calls, crashes, dir, dseen, memo>>
 
 WTarget(p) == IF "InPlaceWrite" \in Dev THEN Key(p) ELSE Tmp(p)
 
@@ -159,7 +169,7 @@ OpenW(p) ==
             /\ UNCHANGED <<nino, link>>
   /\ woff' = [woff EXCEPT ![p] = 0]
   /\ Goto(p, "write")
-  /\ UNCHANGED <<arg, res, rfd, calls, crashes, dir, dseen>>
+  /\ UNCHANGED <<arg, res, rfd, calls, crashes, dir, dseen, memo>>
 
 \* one chunk reaches the inode (positional write at this handle's offset)
 Write(p) ==
@@ -167,7 +177,7 @@ Write(p) ==
   /\ woff' = [woff EXCEPT ![p] = woff[p] + 1]
   /\ ino' = [ino EXCEPT ![wfd[p]] =
                [src |-> arg[p], len |-> IF @.len > woff[p] + 1 THEN @.len ELSE woff[p] + 1]]
-  /\ UNCHANGED <<link, nino, pc, arg, res, rfd, wfd, calls, crashes, dir, dseen>>
+  /\ UNCHANGED <<link, nino, pc, arg, res, rfd, wfd, calls, crashes, dir, dseen, memo>>
 
 Close(p) ==
   /\ pc[p] = "write" /\ woff[p] = NChunks
@@ -175,7 +185,7 @@ Close(p) ==
   /\ IF "InPlaceWrite" \in Dev
      THEN res' = [res EXCEPT ![p] = arg[p]] /\ Goto(p, "ret")
      ELSE res' = res /\ Goto(p, "replace")
-  /\ UNCHANGED <<link, ino, nino, arg, rfd, woff, calls, crashes, dir, dseen>>
+  /\ UNCHANGED <<link, ino, nino, arg, rfd, woff, calls, crashes, dir, dseen, memo>>
 
 \* os.replace(tmp, key): atomic re-link; readers holding the old inode are unaffected
 Replace(p) ==
@@ -183,13 +193,13 @@ Replace(p) ==
   /\ link' = [link EXCEPT ![Key(p)] = link[Tmp(p)], ![Tmp(p)] = 0]
   /\ res' = [res EXCEPT ![p] = arg[p]]
   /\ Goto(p, "ret")
-  /\ UNCHANGED <<ino, nino, arg, rfd, wfd, woff, calls, crashes, dir, dseen>>
+  /\ UNCHANGED <<ino, nino, arg, rfd, wfd, woff, calls, crashes, dir, dseen, memo>>
 
 \* the call returns res[p] (or raises when res[p] = RAISED) to its caller
 Return(p) ==
   /\ pc[p] = "ret"
   /\ Goto(p, "idle")
-  /\ UNCHANGED <<link, ino, nino, arg, res, rfd, wfd, woff, calls, crashes, dir, dseen>>
+  /\ UNCHANGED <<link, ino, nino, arg, res, rfd, wfd, woff, calls, crashes, dir, dseen, memo>>
 
 \* the process is killed anywhere inside a call; its handles vanish, the inodes stay
 Crash(p) ==
@@ -201,6 +211,7 @@ Crash(p) ==
   \* Tmp(p) names the private temporary file of p's call in flight; the real names are
   \* unique per call, so an orphaned one is never opened again: the model forgets it.
   /\ link' = [link EXCEPT ![Tmp(p)] = 0]
+  /\ memo' = [memo EXCEPT ![p] = [k \in Keys |-> None]]     \* the interpreter is gone
   /\ UNCHANGED <<ino, nino, arg, woff, calls, dir, dseen>>
 
 Step(p) == \/ EnsureDir(p) \/ DirStat(p) \/ StrictMkdir(p) \/ Stat(p) \/ OpenR(p) \/ Load(p) \/ Doit(p) \/ OpenW(p)
